@@ -362,7 +362,11 @@ func (sfr *SegmentFileReader) loadBlockUsingBuffer(blockNum uint16) (bool, error
 		return false, ErrBlockNil
 	}
 
-	cnameIdx := sfr.allBmi.CnameDict[sfr.ColName]
+	cnameIdx, ok := sfr.allBmi.CnameDict[sfr.ColName]
+	if !ok {
+		// No block of the segment knows this column, so it never existed for this block
+		return false, nil
+	}
 
 	if cnameIdx >= len(blockMeta.ColBlockOffAndLen) {
 		return false, ErrInvalidMetadata
